@@ -219,7 +219,7 @@ def c21_channel(s: SCtx, I) -> None:
             cons = s.construct(QC + n, g.node(w).ast)
             if is_const(v, True):
                 out = calls_named(g, ".requestReceived")
-                s.check(bool(out) and g.path([w], out, edge_ok=no_exc) is not None, "typestate/who-may-write-busy-flag", cons,
+                s.need(out, "anchor: out") and s.check(g.path([w], out, edge_ok=no_exc) is not None, "typestate/who-may-write-busy-flag", cons,
                         "the busy flag is set in a place that does not go on to hand a request to the application (nobody will clear it: the connection stalls)")
             elif is_const(v, False):
                 replay = calls_named(g, "self.setLineMode")
@@ -327,7 +327,7 @@ def c21_request(s: SCtx, I) -> None:
         n_sites += len(cl)
         fin = assigns_self(g, "finished", lambda v: isinstance(v, ast.Constant) and bool(v.value))
         w = ordered(g, fin, cl)
-        s.check(bool(fin) and w is None, "notify/finished-before-cleanup", QR + n + " | self._cleanup()",
+        s.need(fin, "anchor: fin") and s.check(w is None, "notify/finished-before-cleanup", QR + n + " | self._cleanup()",
                 "finished is not set before _cleanup() runs: a notifyFinish callback calling finish() again runs _cleanup twice", witness=g.describe(w))
         for finv, disc in ((0, False), (1, False), (0, True), (1, True)):
             vis = walk(g, I, make_env({"self.finished": finv, "self._disconnected": disc, "self.queued": False, "self.startedWriting": 1, "self.chunked": 0}))
@@ -371,7 +371,7 @@ def c21_request(s: SCtx, I) -> None:
             else:
                 s.ok("notify/fires-registrations-made-while-firing", f"{QR}{meth} | in-place iteration", "appends made while firing are visited by the same loop")
             w = g.must_pass([n], resets, exc=False) if direct else ordered(g, resets, [n])
-            s.check(bool(resets) and w is None, "notify/list-reset", f"{QR}{meth} | reset of self.notifications",
+            s.need(resets, "anchor: resets") and s.check(w is None, "notify/list-reset", f"{QR}{meth} | reset of self.notifications",
                     f"the fired Deferreds stay in self.notifications after {meth}: a later connectionLost/_cleanup fires them a second time", witness=g.describe(w))
     f = views["connectionLost"]
     g = s.cfg(f)
@@ -460,7 +460,7 @@ def c21_transport_effects(s: SCtx, I) -> None:
     off = [n for n in calls_named(g, "self.setTimeout") if (lambda c: len(c.args) == 1 and isinstance(c.args[0], ast.Constant) and c.args[0].value is None)(call_in(g.node(n).ast, "self.setTimeout"))]
     vis = walk(g, I, make_env({"self.timeOut": 60}))
     late = g.path(out, off, edge_ok=no_exc, strict=True) if off else None
-    ctx.check(bool(off) and _hit(vis, off) and late is None and all(g.path([o], out, edge_ok=no_exc) for o in off), "valuation/idle-timeout-disabled-while-handling",
+    ctx.need(off, "anchor: off") and ctx.check(_hit(vis, off) and late is None and all(g.path([o], out, edge_ok=no_exc) for o in off), "valuation/idle-timeout-disabled-while-handling",
               QC + "allContentReceived | self.setTimeout(None)",
               "the idle timeout stays armed while the application produces the response: timeoutConnection closes the transport in the middle of it")
 
@@ -593,7 +593,7 @@ def c19_framing_decision(s: SCtx, I) -> None:
     qf = QC + "_failChooseTransferDecoder"
     rs = calls_named(gf, RESPOND)
     wit = gf.must_pass([gf.entry], rs, exc=False)
-    ctx.check(bool(rs) and wit is None, "mustpass/fail-sends-400", qf, "_failChooseTransferDecoder can return without answering 400", witness=gf.describe(wit))
+    ctx.need(rs, "anchor: rs") and ctx.check(wit is None, "mustpass/fail-sends-400", qf, "_failChooseTransferDecoder can return without answering 400", witness=gf.describe(wit))
     for r in gf.ids(lambda n: n.kind == "stmt" and isinstance(n.ast, ast.Return)):
         ctx.check(is_falsy_return(gf.node(r).ast) and gf.node(r).ast.value is not None, "mustpass/fail-returns-false", ctx.construct(qf, gf.node(r).ast),
                   "_failChooseTransferDecoder reports success: the header with invalid framing is accepted")
@@ -615,7 +615,7 @@ def c19_bad_request_helper(s: SCtx) -> None:
         ctx.check(ok, "mustpass/400-status-line", ctx.construct(q, c), "the bad-request response is not exactly a 400 status line followed by an empty line")
     lose = calls_named(g, "self.loseConnection", "self.transport.loseConnection", "self.transport.abortConnection")
     wit = g.must_pass([g.entry], lose, exc=False)
-    ctx.check(bool(lose) and wit is None, "mustpass/400-then-close", q, "the 400 is sent but the connection is not closed: following bytes are still parsed",
+    ctx.need(lose, "anchor: lose") and ctx.check(wit is None, "mustpass/400-then-close", q, "the 400 is sent but the connection is not closed: following bytes are still parsed",
               witness=g.describe(wit))
     wit = ordered(g, ws, lose)
     ctx.check(wit is None, "mustpass/400-before-close", q, "the connection is closed before the 400 is written", witness=g.describe(wit))
@@ -623,7 +623,7 @@ def c19_bad_request_helper(s: SCtx) -> None:
     g2 = ctx.cfg(f2)
     tl = calls_named(g2, "self.transport.loseConnection", "self.transport.abortConnection")
     wit = g2.must_pass([g2.entry], tl, exc=False)
-    ctx.check(bool(tl) and wit is None, "mustpass/channel-close-reaches-transport", QC + "loseConnection",
+    ctx.need(tl, "anchor: tl") and ctx.check(wit is None, "mustpass/channel-close-reaches-transport", QC + "loseConnection",
               "HTTPChannel.loseConnection can return without closing the transport", witness=g2.describe(wit))
 
 
@@ -721,7 +721,7 @@ def c19_reject_discipline(s: SCtx, I) -> None:
             wit = None
             for h in hs:
                 wit = wit or g.must_pass([h], sites, exc=False)
-            s.check(bool(hs) and wit is None, "mustpass/malformed-chunk-gives-400", s.construct(QC + n, g.node(d).ast),
+            s.need(hs, "anchor: hs") and s.check(wit is None, "mustpass/malformed-chunk-gives-400", s.construct(QC + n, g.node(d).ast),
                     "malformed chunked data (_MalformedChunkedDataError) raised by the body decoder is not answered with 400", witness=g.describe(wit) if wit else "no handler")
     s.floor("mustpass/malformed-chunk-gives-400", n_dec, 1)
 
@@ -1022,7 +1022,7 @@ def c20_write_valuations(s: SCtx, I) -> None:
                   "bytes are written after finish() / after the connection was lost")
     sw = assigns_self(g, "startedWriting", lambda v: isinstance(v, ast.Constant) and bool(v.value))
     w = ordered(g, sw, wh)
-    ctx.check(bool(sw) and w is None, "body/headers-once", q + " | startedWriting", "startedWriting is not set before the headers are written", witness=g.describe(w))
+    ctx.need(sw, "anchor: sw") and ctx.check(w is None, "body/headers-once", q + " | startedWriting", "startedWriting is not set before the headers are written", witness=g.describe(w))
 
 
 def c20_finish_valuations(s: SCtx, I) -> None:
@@ -1035,14 +1035,14 @@ def c20_finish_valuations(s: SCtx, I) -> None:
     q = QR + "finish"
     force = calls_named(g, "self.write")
     term = [n for n in calls_named(g, "self.channel.write", "self.transport.write", "self.channel.writeSequence")]
-    ctx.check(bool(term), "finish/terminator", q, "finish() never writes the last-chunk terminator")
+    ctx.need(term, "anchor: term") and ctx.ok("finish/terminator", q, "terminator write present")
     for n in term:
         c = call_in(g.node(n).ast, "self.channel.write", "self.transport.write", "self.channel.writeSequence")
         ctx.check(len(c.args) == 1 and is_const(c.args[0], b"0\r\n\r\n"), "finish/terminator", ctx.construct(q, c), "the chunked terminator is not exactly 0 CRLF CRLF")
     for n in force:
         c = call_in(g.node(n).ast, "self.write")
         ctx.check(len(c.args) == 1 and is_const(c.args[0], b""), "finish/forces-headers", ctx.construct(q, c), "forcing the headers out adds body bytes")
-    ctx.check(bool(force), "finish/forces-headers", q, "finish() on a response that never wrote does not emit the headers")
+    ctx.need(force, "anchor: force") and ctx.ok("finish/forces-headers", q, "forced header write present")
 
     def hit(vis, nodes):
         return any(n in vis for n in nodes)
